@@ -158,7 +158,14 @@ def extract():
     getitems = [_func(pos, "__getitem__", c) for c in ("PositionArray", "PositionDeltaArray")]
     links = links and all(g is not None and "_share_memory_with(rows)" in ast.unparse(g) and "_sliced" not in ast.unparse(g) for g in getitems)
     refreg = setattr_ is not None and "ref_pos" in ast.unparse(setattr_) and "add_dependency" in ast.unparse(setattr_)
-    obj = dict(transitive=transitive, viewsLinked=links, refPos=refreg)
+    # __setattr__: replacing / removing an attachment drops the caches of the dependents before it unregisters
+    prop = False
+    if setattr_ is not None:
+        for node in ast.walk(setattr_):
+            if isinstance(node, ast.If) and ast.unparse(node.test) == "prev_attr_value is not None":
+                body = [ast.unparse(b) for b in node.body]
+                prop = bool(body) and body[0] == "self._clear_dependent_caches()"
+    obj = dict(transitive=transitive, viewsLinked=links, refPos=refreg, setattrPropagates=prop)
     return raw, rotg, time, sorted(cached), sorted(fmt_dep), key_copy, obj
 
 
@@ -226,6 +233,20 @@ def extract_position_tables():
                 src = ast.unparse(first) if first is not None else ""
                 clears = src in ("self._clear_dependent_caches()", "self.clear_cache()")
                 mutators.append((cls.name, fn.name, clears))
+            # ndarray methods that change the contents in place, overridden through the factory `_changing_in_place(name)`:
+            # the inner function is the body of each of them
+            if fn.name == "_changing_in_place":
+                inner = next((n for n in fn.body if isinstance(n, ast.FunctionDef)), None)
+                first = _first_real_stmt(inner) if inner is not None else None
+                clears = first is not None and ast.unparse(first) == "self._clear_dependent_caches()"
+                for node in cls.body:
+                    if (isinstance(node, ast.Assign) and isinstance(node.value, ast.Call) and isinstance(node.value.func, ast.Name)
+                            and node.value.func.id == "_changing_in_place" and len(node.targets) == 1 and isinstance(node.targets[0], ast.Name)):
+                        mutators.append((cls.name, node.targets[0].id, clears and ast.literal_eval(node.value.args[0]) == node.targets[0].id))
+            if fn.name == "__array_wrap__":
+                # NumPy calls it on the out= array of a ufunc: it must drop the caches when the array wrapped is the array itself
+                src = ast.unparse(fn)
+                mutators.append((cls.name, fn.name, "if array is self:\n        self._clear_dependent_caches()" in src))
     return sorted(set((c, f, k, tuple(ps)) for c, f, k, ps in cache_writes)), sorted(set(attr_writes)), sorted(set(mutators))
 
 
@@ -282,6 +303,8 @@ def generate() -> bool:
             f"def objViewsLinked : Bool := {b(obj['viewsLinked'])}",
             "/-- a position delta is registered as depending on its ref_pos -/",
             f"def objRefPosRegistered : Bool := {b(obj['refPos'])}",
+            "/-- replacing or removing an attached object clears the caches of all (direct and indirect) dependents first -/",
+            f"def objSetattrPropagates : Bool := {b(obj['setattrPropagates'])}",
             "/-- arrays NumPy makes through __array_finalize__ only (view, reshape, .T, arr[...], arr[:, :]), arrays constructed from a",
             "position array and the 1-d .pos/.vel are linked with every position array they use the memory of -/",
             f"def objFinalizeLinked : Bool := {b(extract_finalize_linked())}"]
